@@ -287,7 +287,7 @@ fn execute_found(sc: &Scenario, acc: &mut Acc) -> Result<Vec<Found>, String> {
         founds_v.extend(founds(&fsc, healthy_out));
     }
     // ---- damage side
-    let damages: Vec<(String, DamageKind, u64)> = if let Some(d) = damage_in_scenario {
+    let mut damages: Vec<(String, DamageKind, u64)> = if let Some(d) = damage_in_scenario {
         vec![d]
     } else if enumerate {
         acc.exhaustive_within_scenario = true;
@@ -296,10 +296,13 @@ fn execute_found(sc: &Scenario, acc: &mut Acc) -> Result<Vec<Found>, String> {
         enumerate_damages(&w, sc.seed, true, true, false, sc.params.get("flips").and_then(|v| v.as_u64()).unwrap_or(2))
             .into_iter()
             .filter(|(p, k, _)| !(p.ends_with("BANDTAIL") && *k == DamageKind::Delete))
-            .collect()
+            .collect::<Vec<_>>()
     } else {
         vec![]
     };
+    if super::cap_plans(&mut damages, super::plan_cap(4 * w.store().nodes.len(), 6000), sc.seed) {
+        acc.hit("enumeration_capped");
+    }
     if damages.is_empty() {
         return Ok(founds_v);
     }
